@@ -116,13 +116,16 @@ def sym_mutate(inp, part):
     doc = _copy(NATIVE if layout == "native" else LEGACY)
     nf, cf = NODE_FIELDS[layout], CHILD_FIELDS[layout]
     if grp == "doc":
-        k = inp.pick("pos", 3)
+        k = inp.pick("pos", 4)
         if k == 0:
             doc = _value(inp)
         elif k == 1:
             doc["1"] = _value(inp)
-        else:
+        elif k == 2:
             doc["1"]["children"] = _value(inp)
+        else:
+            # the top-level keys are just labels: any JSON object key must be survivable
+            doc[(KEY_CLASSES + ["gateway", "node-1"])[inp.pick("topkey", len(KEY_CLASSES) + 2)]] = doc.pop("1")
     elif grp == "nodefield":
         f = nf[inp.pick("field", len(nf))]
         if f == "children":
